@@ -17,8 +17,9 @@ from __future__ import annotations
 import itertools
 import keyword
 
-FUTURES = ["division", "absolute_import", "print_function", "unicode_literals", "annotations",
-           "generator_stop", "with_statement", "nested_scopes", "generators"]
+import __future__ as _future_module
+# every feature, including the one mixed-case name (barry_as_FLUFL)
+FUTURES = list(_future_module.all_feature_names)
 
 # identifier characters; the non-ASCII ones are NFKC-stable letters (ast normalises identifiers to NFKC)
 FIRST = "abcdefghijklmnopqrstuvwxyzABCDEFGHIJKLMNOPQRSTUVWXYZ_"
@@ -160,6 +161,18 @@ def gen_case(rng):
         pool.append(m)
     for _ in range(n):
         imps.append(gen_import(rng, pool))
+    # __future__ imports over all features: alone, several, aliased (flags are recomputed when the text is parsed back)
+    r = rng.random()
+    if r < 0.10:
+        feats = rng.sample(FUTURES, rng.choice([1, 1, 2, 3, len(FUTURES)]))
+        fut = [dict(k="from", mod="__future__", lvl=0, name=f, **{"as": (None if rng.random() < 0.75 else ident(rng, 1, 6))}) for f in feats]
+        imps = fut if rng.random() < 0.25 else imps + fut
+    # one fullname under several local names: `from m import a as x, a as y, a as z`, `import m as x, m as y`
+    # (their order in the text must come from the sort, never from a set's iteration order)
+    if rng.random() < 0.10:
+        imps.extend(alias_family(rng))
+        if rng.random() < 0.3:
+            imps.extend(alias_family(rng))
     # keep most sets non-conflicting (two different imports binding one local name): the claim excludes conflicts,
     # the error branch is still exercised at a low rate
     if rng.random() < 0.9:
@@ -182,8 +195,43 @@ def gen_case(rng):
         w = base + rng.choice([-2, -1, 0, 1, 2])
         if 10 <= w <= 200:
             p["width"] = w
-    return dict(imports=imps, params=p, via=rng.choice(["split", "split", "text"]),
+    case = dict(imports=imps, params=p, via=rng.choice(["split", "split", "text"]),
                 align_kind=rng.choice(["tuple", "list", "set"]))
+    # the text must not depend on the interpreter's string hash seed: these cases are formatted again under three
+    # PYTHONHASHSEED values (sub-processes); always for alias families, else for a small sample
+    if has_alias_family(imps) or rng.random() < 0.01:
+        case["hashseeds"] = sorted(rng.sample(range(1, 100000), 3))
+    return case
+
+
+def alias_family(rng):
+    k = rng.choice([2, 3, 3, 4, 5, 6])
+    names = set()
+    while len(names) < k:
+        names.add(rng.choice(["x", "al", "n", "q"]) + str(rng.randint(0, 60)) if rng.random() < 0.7 else ident(rng, 1, 8))
+    names = sorted(names)
+    rng.shuffle(names)
+    if rng.random() < 0.5:
+        m = dotted(rng, 2, 6)
+        lvl = rng.choice([0, 0, 0, 1])
+        mem = ident(rng, 1, 6)
+        out = [dict(k="from", mod=m, lvl=lvl, name=mem, **{"as": a}) for a in names]
+        if rng.random() < 0.3:
+            out.append(dict(k="from", mod=m, lvl=lvl, name=mem, **{"as": None}))
+        return out
+    m = ident(rng, 1, 8)
+    out = [dict(k="imp", mod="", lvl=0, name=m, **{"as": a}) for a in names]
+    if rng.random() < 0.3:
+        out.append(dict(k="imp", mod="", lvl=0, name=m, **{"as": None}))
+    return out
+
+
+def has_alias_family(imps):
+    seen = {}
+    for i in imps:
+        key = (i["k"], i["mod"], i["lvl"], i["name"])
+        seen.setdefault(key, set()).add(i["as"])
+    return any(len(v) >= 2 for v in seen.values())
 
 
 def render_stmt(i):
